@@ -308,6 +308,23 @@ def install(I, poll_budget=1):
         cell, path = unpin(I, st, args[0])
         return poll_at(I, st, cell, path, args[1], fr, f)
 
+    @M(r'FutureExt>::now_or_never$|(^|::)FutureExt::now_or_never(::<.*>)?$', 'FutureExt::now_or_never (one poll with a no-op waker)')
+    def m_now_or_never(I, st, f, args, fr):
+        v = args[0]
+        if isinstance(v, Ref) or (isinstance(v, Agg) and v.ty == 'Pin'):
+            cell, path = unpin(I, st, v)
+        else:
+            cell, path = st.alloc(v), ()      # taken by value: polled once, then dropped with the call (not followed: a Pending future by value is outside)
+        outs = []
+        for o in poll_at(I, st, cell, path, Opaque('noop-context'), fr, f):
+            if o.kind != 'ret':
+                outs.append(o)
+            elif isinstance(o.val, Enum) and o.val.variant == 'Ready':
+                outs.append(Outcome(o.st, 'ret', some(o.val.fields[0])))
+            else:
+                outs.append(Outcome(o.st, 'ret', NONE))
+        return outs
+
     def poll_at(I, st, cell, path, cx, fr, f=''):
         v = I.read(st, cell, path)
         # &mut oneshot::Receiver as a future / Pin<Box<F>> / &mut F
